@@ -360,6 +360,14 @@ def check_scipy(case, ctx):
     ctx.check(got.shape == tuple(qshape), "prediction shape %s for query shape %s", got.shape, tuple(qshape))
     if not np.array_equal(got, ref, equal_nan=True):
         raise Violation("%s(rescale=%r) differs from SciPy's interpolator on the same points: %r vs %r" % (cls.__name__, case["rescale"], got.ravel().tolist(), np.asarray(ref).ravel().tolist()))
+    # the same from copies of the fitted gridder made by the copy and pickle modules (what joblib / dask.distributed hand to their workers)
+    import copy
+    import pickle
+
+    for how, dup in (("copy.deepcopy", copy.deepcopy(g)), ("a pickle round trip", pickle.loads(pickle.dumps(g)))):
+        again = np.asarray(dup.predict((qe, qn)))
+        if not np.array_equal(again, ref, equal_nan=True):
+            raise Violation("%s(rescale=%r) after %s differs from SciPy's interpolator on the same points: %r vs %r" % (cls.__name__, case["rescale"], how, again.ravel().tolist(), np.asarray(ref).ravel().tolist()))
     ctx.label(case["kind"], "rescale" if case["rescale"] else "norescale", "has_outside" if np.isnan(ref).any() else "all_inside",
               "repeated_points" if len({tuple(p) for p in case["points"]}) < len(case["points"]) else "distinct_points")
     ctx.nt(True)
